@@ -43,15 +43,27 @@ if __name__ == "__main__":
     for a in sys.argv[1:]:
         if a.startswith("--props"):
             props = a.split("=", 1)[1].split(",")
-    rids = args or sorted(os.listdir(BASE))
+    import json
+    rids = args or sorted(d for d in os.listdir(BASE) if os.path.isdir(os.path.join(BASE, d)))
+    expected = {}
+    if os.path.exists(os.path.join(BASE, "expected.json")):
+        with open(os.path.join(BASE, "expected.json")) as f:
+            expected = json.load(f)
     jobs = [(r, p) for r in rids for p in props]
-    bad = 0
+    bad = unexpected = 0
     with cf.ProcessPoolExecutor(16) as ex:
         for rid, pid, st, info in ex.map(one, jobs):
+            exp = expected.get(rid, {}).get(pid)
             if st != "ok":
                 bad += 1
-                print(rid, pid, st)
+                if exp is None:
+                    unexpected += 1
+                print(rid, pid, st, "" if exp is None else "(listed: %s)" % exp.get("kind"))
                 for i in info:
                     print("     ", i)
-    print("%d of %d (refactoring, check) pairs are not silent" % (bad, len(jobs)))
-    sys.exit(1 if bad else 0)
+            elif exp is not None:
+                unexpected += 1
+                print(rid, pid, "SILENT although listed in expected.json as", exp.get("kind"))
+    print("%d of %d (refactoring, check) pairs are not silent; %d not as listed in expected.json" %
+          (bad, len(jobs), unexpected))
+    sys.exit(1 if unexpected else 0)
